@@ -67,9 +67,6 @@ pub mod h_iter_t {
 pub mod h_input2 {
     include!(concat!(env!("CHUMSKY_VERIF_DIR"), "/h_input2.rs"));
 }
-pub mod h_graph {
-    include!(concat!(env!("CHUMSKY_VERIF_DIR"), "/h_graph.rs"));
-}
 pub mod h_pratt2 {
     include!(concat!(env!("CHUMSKY_VERIF_DIR"), "/h_pratt2.rs"));
 }
@@ -102,7 +99,6 @@ pub fn register_all(r: &mut Vec<(&'static str, fn())>) {
     h_clone::register(r);
     h_iter2::register(r);
     h_pratt2::register(r);
-    h_graph::register(r);
     h_input2::register(r);
     h_iter_t::register(r);
     h_arity::register(r);
